@@ -386,7 +386,20 @@ func (e *Engine) Execute(tr core.Trace, ctx *core.Ctx) {
 		if p {
 			ex = expr.Zero
 		}
+		if c, isC := ex.(expr.Const); isC && t.Hidden && c.Width() < 200 {
+			// the same constant, but cut out of a wider one: its byte slice
+			// has non-zero bytes hidden behind its length
+			n := 1 + int(t.VSeed+uint64(len(h.built)))%8
+			wide := append(append([]byte(nil), c.Bytes()...), make([]byte, n)...)
+			for k := 0; k < n; k++ {
+				wide[int(c.Width())+k] = byte(0xd1 + k)
+			}
+			ex = expr.NewConst(wide, c.Width()+expr.Width(n)).WithWidth(c.Width())
+		}
 		h.built = append(h.built, ex)
+	}
+	if t.Hidden {
+		ctx.Probe("constants_with_hidden_capacity")
 	}
 	switch t.Obj {
 	case "sparse":
@@ -685,7 +698,7 @@ func (e *Engine) runRegs(t *Trace, h *harness) {
 		return sb.String()
 	}
 
-	checkRegLoad := func(ev int, key string, w int) bool {
+	checkRegLoad := func(ev int, key string, w int, explicit bool) bool {
 		var ex expr.Expr
 		var ok bool
 		fn, msg, panicked := core.Guard(func() { ex, ok = st.Regs.Load(expr.Key(key), expr.Width(w)) })
@@ -702,6 +715,9 @@ func (e *Engine) runRegs(t *Trace, h *harness) {
 		}
 		if ex == nil || int(ex.Width()) != w {
 			return !ctx.Fail(h.prop, "regs", "regs/width", ev, "Regs.Load(%s,%d) returned width %v", key, w, ex)
+		}
+		if explicit {
+			h.loaded = append(h.loaded, ex)
 		}
 		cls := "same"
 		if w < rm.w {
@@ -747,7 +763,7 @@ func (e *Engine) runRegs(t *Trace, h *harness) {
 			regs[op.Key] = regModel{h.addVal(ex, op.W), op.W}
 			h.readAfterOvl = true
 		case "rload":
-			if !checkRegLoad(i, op.Key, op.W) {
+			if !checkRegLoad(i, op.Key, op.W, true) {
 				return
 			}
 		case "apply_reg":
@@ -769,18 +785,44 @@ func (e *Engine) runRegs(t *Trace, h *harness) {
 			}
 			regs[op.Key] = regModel{h.addVal(ex, op.W), op.W}
 		case "apply_mem":
-			if op.AddrX == nil {
-				continue
-			}
 			var ax expr.Expr
-			if _, _, p := core.Guard(func() { ax = op.AddrX.Build() }); p {
-				continue
+			if op.AddrFrom > 0 {
+				// the address is computed from what an earlier register read
+				// returned (the caller read the register and shifted it)
+				if op.AddrFrom > len(h.loaded) || op.AddrSh < 0 || op.AddrSh > 255 {
+					continue
+				}
+				ld := h.loaded[op.AddrFrom-1]
+				if _, isC := ld.(expr.Const); !isC {
+					// whether a symbolic value "reduces to a constant" is
+					// judged on the generated address shapes only
+					ctx.Probe("apply_mem_address_from_symbolic_read_skipped")
+					continue
+				}
+				// the very object the register file returned becomes part of
+				// the address (no copy: the caller does not copy either)
+				ax = expr.NewBinary(expr.Rsh, ld, expr.NewConstUint(uint8(op.AddrSh), 1), 8)
+				op.AddrX = refeval.FromExpr(ax)
+				ctx.Probe("apply_mem_address_from_register_read")
+			} else {
+				if op.AddrX == nil {
+					continue
+				}
+				if _, _, p := core.Guard(func() { ax = op.AddrX.Build() }); p {
+					continue
+				}
 			}
 			var ef expr.Effect
 			if _, _, p := core.Guard(func() { ef = expr.NewMemStore(ex, expr.Key(op.Key), ax, expr.Width(op.W)) }); p {
 				continue
 			}
 			constAddr, isConst := constAddress(op.AddrX)
+			if isConst && op.AddrFrom > 0 && constAddr+uint64(op.W) >= ^uint64(0)-1 || isConst && constAddr+uint64(op.W) < constAddr {
+				// ranges reaching the end of the address space are outside
+				// what the memories represent (see DESIGN 6.6)
+				ctx.Probe("apply_mem_address_at_the_end_of_the_address_space_skipped")
+				continue
+			}
 			before := snapshot()
 			var ok bool
 			fn, msg, panicked := core.Guard(func() { ok = st.Apply(ef) })
@@ -850,7 +892,7 @@ func (e *Engine) runRegs(t *Trace, h *harness) {
 		}
 		sortStrings(rk)
 		for _, k := range rk {
-			if !checkRegLoad(i, k, regs[k].w) {
+			if !checkRegLoad(i, k, regs[k].w, false) {
 				return
 			}
 		}
